@@ -113,6 +113,8 @@ def generate(spec):
             r = rng.random()
             if r < 0.30:
                 ops.append({"t_us": t, "inst": j, "op": "run_step", "settings": {}})
+                if rng.random() < 0.3:
+                    ops[-1]["flat"] = True      # this client wants flat results; nobody else asked for them
             elif r < 0.50:
                 ops.append({"t_us": t, "inst": j, "op": "run_step", "settings": _settings(rng, template, j, scen)})
             elif r < 0.56:
@@ -132,7 +134,7 @@ def generate(spec):
                 ops.append({"t_us": t, "inst": j, "op": "begin_session", "scenarios": [scen], "equations": eqs[:2],
                             "settings": {}})
             else:
-                ops.append({"t_us": t, "inst": j, "op": "stream"})
+                ops.append({"t_us": t, "inst": j, "op": "stream", "body": rng.random() < 0.6})
     # traffic of a party that owns no instance: /run with settings on the server-level bptk
     for _ in range(rng.choice([0, 0, 1, 2, 3])):
         scen = rng.choice(["base", "alt"])
@@ -182,11 +184,11 @@ def _do(w, ids, o, tag=None):
         return w.post("/%s/begin-session" % iid, {"scenario_managers": ["smA"], "scenarios": o["scenarios"],
                                                   "equations": o["equations"], "settings": o["settings"]})
     if op == "run_step":
-        return w.post("/%s/run-step" % iid, None if o["settings"] is None else {"settings": o["settings"]}, tag=tag)
+        return w.post("/%s/run-step" % iid, None if o["settings"] is None else dict({"settings": o["settings"]}, **({"flatResults": True} if o.get("flat") else {})), tag=tag)
     if op == "run_steps":
         return w.post("/%s/run-steps" % iid, {"settings": o["settings"], "numberSteps": o["n"]}, tag=tag)
     if op == "stream":
-        r, _, _ = w.stream("/%s/stream-steps" % iid, {"settings": {}}, tag=tag)
+        r, _, _ = w.stream("/%s/stream-steps" % iid, {"settings": {}} if o.get("body", True) else None, tag=tag)
         return r
     if op == "session_results":
         return w.get("/%s/session-results" % iid)
